@@ -4,6 +4,8 @@ import (
 	"fmt"
 	"time"
 
+	"github.com/b2broker/simplefix-go/utils"
+
 	"verif/simrt"
 )
 
@@ -46,6 +48,23 @@ func c15(w *World) {
 		doneSeen = true
 		simrt.Yield("watch'")
 	})
+	if w.W.Chance(1, 3) {
+		// an application handler that returns false (it is the last of its chain: harmless)
+		s.OnChangeState(utils.EventLogon, func() bool { return false })
+		s.OnChangeState(utils.EventRequest, func() bool { return false })
+		w.Probe("event_handler_returning_false")
+	}
+	// local calls run on a task of their own: they must come back
+	callReturned := false
+	call := func(name string, f func() error) bool {
+		callReturned = false
+		simrt.GoHarness(name, func() { _ = f(); callReturned = true })
+		simrt.Settle()
+		if !callReturned {
+			w.Violate("local-call-blocked", name, fmt.Sprintf("%s() has not returned although nothing is left to run at this instant", name))
+		}
+		return callReturned
+	}
 	evBefore := sc.LogoutEvents()
 	if w.W.Chance(1, 3) {
 		// stay silent until the library probes us: the ending then begins while its TestRequest is
@@ -84,7 +103,9 @@ func c15(w *World) {
 		w.Probe("peer_logout")
 
 	case "local-logout":
-		_ = s.Logout()
+		if !call("Logout", s.Logout) {
+			return
+		}
 		sc.Settle()
 		r := dropTimer(sc.P.Take())
 		if n := count(r, "5"); n != 1 {
@@ -112,8 +133,7 @@ func c15(w *World) {
 
 	case "stop":
 		t0 := time.Now()
-		if err := s.Stop(); err != nil {
-			w.Inconclusive = "stop-error"
+		if !call("Stop", s.Stop) {
 			return
 		}
 		sc.Settle()
